@@ -1,0 +1,229 @@
+//go:build verif
+
+package ir
+
+// Event log of the build protocol for the external verification harness (property C18):
+// task graph operations (task.go), enqueue/built of functions (builder.go) and runs of the
+// once-guarded package build body. Recording is off unless VerifC18Start has been called; the
+// hook functions then cost one atomic load.
+//
+// Order of the log versus the real actions (what makes the log a legal linearisation):
+//   - MarkDone is logged before the channel is closed, WaitObserve after the receive returned;
+//   - WaitClosed is logged before the transitive flag is stored, a skip after the flag was read;
+//   - AddEdge/Enqueue/Built/MarkDone of one task are issued by the one goroutine that owns the builder.
+
+import (
+	"sync"
+	"sync/atomic"
+)
+
+// VerifC18Kind enumerates the recorded events.
+type VerifC18Kind int
+
+const (
+	VerifEvAddEdge     VerifC18Kind = iota // X=task, Y=task: edge X->Y inserted
+	VerifEvAddSkip                         // X=task, Y=task: addEdge(X,Y) returned early (X==Y or Y transitively done)
+	VerifEvMarkDone                        // X=task
+	VerifEvWaitStart                       // W=waiter, X=root task
+	VerifEvWaitFast                        // W=waiter, X=root task: wait returned at once (X nil or transitively done)
+	VerifEvWaitSkip                        // W=waiter, X=visited task found transitively done
+	VerifEvWaitObserve                     // W=waiter, X=visited task observed done, Ys=its edges as read
+	VerifEvWaitClosed                      // W=waiter, X=root task: BFS finished, flag about to be stored, wait returns
+	VerifEvEnqueue                         // X=owning task (0 if none), F=function
+	VerifEvBuilt                           // F=function: body complete (Function.done returned)
+	VerifEvPkgBuild                        // P=package path: the once-guarded body started
+)
+
+// VerifC18Event is one recorded event. Tasks, waiters and functions are numbered from 1 in order of
+// first appearance; task 0 is the nil task.
+type VerifC18Event struct {
+	Kind VerifC18Kind
+	W    int
+	X    int
+	Y    int
+	Ys   []int
+	F    int
+	P    string
+}
+
+var verifC18On atomic.Bool
+
+var verifC18 struct {
+	mu      sync.Mutex
+	tasks   map[*task]int
+	fns     map[*Function]int
+	waiters int
+	events  []VerifC18Event
+}
+
+// VerifC18Start clears the log and switches recording on.
+func VerifC18Start() {
+	verifC18.mu.Lock()
+	verifC18.tasks = map[*task]int{}
+	verifC18.fns = map[*Function]int{}
+	verifC18.waiters = 0
+	verifC18.events = nil
+	verifC18.mu.Unlock()
+	verifC18On.Store(true)
+}
+
+// VerifC18Stop switches recording off and returns the log.
+func VerifC18Stop() []VerifC18Event {
+	verifC18On.Store(false)
+	verifC18.mu.Lock()
+	defer verifC18.mu.Unlock()
+	ev := verifC18.events
+	verifC18.events = nil
+	verifC18.tasks = nil
+	verifC18.fns = nil
+	return ev
+}
+
+// VerifFunctionNumbers returns the numbering of functions used in the log so far.
+func VerifFunctionNumbers() map[*Function]int {
+	verifC18.mu.Lock()
+	defer verifC18.mu.Unlock()
+	m := make(map[*Function]int, len(verifC18.fns))
+	for f, i := range verifC18.fns {
+		m[f] = i
+	}
+	return m
+}
+
+// VerifBuilt reports whether fn's body is complete (nil build func marks a finished function).
+func VerifBuilt(fn *Function) bool { return fn.build == nil }
+
+// VerifShared reports whether fn was created as a potentially shared function (has a build task).
+func VerifShared(fn *Function) bool { return fn.buildshared != nil }
+
+// requires verifC18.mu
+func verifTaskID(t *task) int {
+	if t == nil {
+		return 0
+	}
+	id, ok := verifC18.tasks[t]
+	if !ok {
+		id = len(verifC18.tasks) + 1
+		verifC18.tasks[t] = id
+	}
+	return id
+}
+
+// requires verifC18.mu
+func verifFnID(f *Function) int {
+	id, ok := verifC18.fns[f]
+	if !ok {
+		id = len(verifC18.fns) + 1
+		verifC18.fns[f] = id
+	}
+	return id
+}
+
+func verifTaskEdge(x, y *task, added bool) {
+	if !verifC18On.Load() {
+		return
+	}
+	verifC18.mu.Lock()
+	defer verifC18.mu.Unlock()
+	if verifC18.tasks == nil {
+		return
+	}
+	k := VerifEvAddSkip
+	if added {
+		k = VerifEvAddEdge
+	}
+	verifC18.events = append(verifC18.events, VerifC18Event{Kind: k, X: verifTaskID(x), Y: verifTaskID(y)})
+}
+
+func verifTaskMarkDone(x *task) {
+	if !verifC18On.Load() {
+		return
+	}
+	verifC18.mu.Lock()
+	defer verifC18.mu.Unlock()
+	if verifC18.tasks == nil {
+		return
+	}
+	verifC18.events = append(verifC18.events, VerifC18Event{Kind: VerifEvMarkDone, X: verifTaskID(x)})
+}
+
+// verifWaiter identifies one execution of task.wait.
+type verifWaiter int
+
+func verifWaitStart(x *task) verifWaiter {
+	if x == nil || !verifC18On.Load() {
+		return 0 // waiting on the nil task is not recorded
+	}
+	verifC18.mu.Lock()
+	defer verifC18.mu.Unlock()
+	if verifC18.tasks == nil {
+		return 0
+	}
+	verifC18.waiters++
+	w := verifC18.waiters
+	verifC18.events = append(verifC18.events, VerifC18Event{Kind: VerifEvWaitStart, W: w, X: verifTaskID(x)})
+	return verifWaiter(w)
+}
+
+func verifWaitEvent(w verifWaiter, k VerifC18Kind, x *task, read bool) {
+	if w == 0 || !verifC18On.Load() {
+		return
+	}
+	verifC18.mu.Lock()
+	defer verifC18.mu.Unlock()
+	if verifC18.tasks == nil {
+		return
+	}
+	ev := VerifC18Event{Kind: k, W: int(w), X: verifTaskID(x)}
+	if read {
+		for v := range x.edges {
+			ev.Ys = append(ev.Ys, verifTaskID(v))
+		}
+	}
+	verifC18.events = append(verifC18.events, ev)
+}
+
+func verifWaitFast(w verifWaiter, x *task)    { verifWaitEvent(w, VerifEvWaitFast, x, false) }
+func verifWaitSkip(w verifWaiter, u *task)    { verifWaitEvent(w, VerifEvWaitSkip, u, false) }
+func verifWaitObserve(w verifWaiter, u *task) { verifWaitEvent(w, VerifEvWaitObserve, u, true) }
+func verifWaitClosed(w verifWaiter, x *task)  { verifWaitEvent(w, VerifEvWaitClosed, x, false) }
+
+func verifEnqueue(fn *Function) {
+	if !verifC18On.Load() {
+		return
+	}
+	verifC18.mu.Lock()
+	defer verifC18.mu.Unlock()
+	if verifC18.tasks == nil {
+		return
+	}
+	verifC18.events = append(verifC18.events, VerifC18Event{Kind: VerifEvEnqueue, X: verifTaskID(fn.buildshared), F: verifFnID(fn)})
+}
+
+func verifFnBuilt(fn *Function) {
+	if !verifC18On.Load() {
+		return
+	}
+	verifC18.mu.Lock()
+	defer verifC18.mu.Unlock()
+	if verifC18.tasks == nil {
+		return
+	}
+	verifC18.events = append(verifC18.events, VerifC18Event{Kind: VerifEvBuilt, F: verifFnID(fn)})
+}
+
+func verifPkgBuild(p *Package) {
+	if !verifC18On.Load() {
+		return
+	}
+	verifC18.mu.Lock()
+	defer verifC18.mu.Unlock()
+	if verifC18.tasks == nil {
+		return
+	}
+	path := ""
+	if p.Pkg != nil {
+		path = p.Pkg.Path()
+	}
+	verifC18.events = append(verifC18.events, VerifC18Event{Kind: VerifEvPkgBuild, P: path})
+}
